@@ -638,6 +638,17 @@ inline void pairCase(Ctx& C, const Val& a, const Val& b, bool sameDoc) {
     if (ob.bound) f.add("var~proxy", both(aV, docB[ob.index]));
     if (a.ref.kind == KArr && b.ref.kind == KArr) f.add("JsonArray~JsonArray", both(aV.as<JsonArray>(), bV.as<JsonArray>()));
     if (a.ref.kind == KObj && b.ref.kind == KObj) f.add("JsonObject~JsonObject", both(aV.as<JsonObject>(), bV.as<JsonObject>()));
+    // the const handles and a mutable handle against a const one, all six operators
+    if (a.ref.kind == KArr && b.ref.kind == KArr) {
+      f.add("JsonArrayConst~JsonArrayConst", both(aC.as<JsonArrayConst>(), bC.as<JsonArrayConst>()));
+      f.add("JsonArray~JsonArrayConst", both(aV.as<JsonArray>(), bC.as<JsonArrayConst>()));
+      f.add("JsonArrayConst~var", both(aC.as<JsonArrayConst>(), bV));
+    }
+    if (a.ref.kind == KObj && b.ref.kind == KObj) {
+      f.add("JsonObjectConst~JsonObjectConst", both(aC.as<JsonObjectConst>(), bC.as<JsonObjectConst>()));
+      f.add("JsonObject~JsonObjectConst", both(aV.as<JsonObject>(), bC.as<JsonObjectConst>()));
+      f.add("const~JsonObjectConst", both(aC, bC.as<JsonObjectConst>()));
+    }
     for (auto& kv : f.seen) judge(k, kv.second, kv.first, e);
     // the dedicated equality of the container handles
     if (a.ref.kind == KArr && b.ref.kind == KArr) {
